@@ -429,6 +429,8 @@ def check_commit_counts(p, report, ents):
                            f"`{ast.unparse(a0) if a0 is not None else '?'}` the estimate decays once per REMAINING instance: "
                            f"spending is under-estimated")
         # (b) increments are counts
+        from ..deps import forward_closure as _fwc
+        derived_ = _fwc({x for x in (cand, qidx) if x}, dep_edges(u.node.body))
         for n in ast.walk(u.node):
             tgt = None
             if isinstance(n, ast.AugAssign):
@@ -451,9 +453,29 @@ def check_commit_counts(p, report, ents):
                     if cn in VALUE_REDUCTIONS and (recv_is_q or arg_is_q):
                         bad = (f"`{ast.unparse(sub)}` reduces over the VALUES of the index array `{qidx}`: a label granted to "
                                f"instance 0 of a chunk is not counted (or indices are summed): granted labels are under-counted")
-            if cand in names_in(n.value) or (qidx and qidx in names_in(n.value)) or bad:
+            direct = cand in names_in(n.value) or (qidx and qidx in names_in(n.value)) or bad
+            if direct:
                 report.add("R4.6", u.qual, f"increment `{norm_stmt(n, 60)}` is a count", f"{u.file}:{n.lineno}", bad is None,
                            detail=bad or "row count / number of indices")
+            if direct or (isinstance(n, ast.AugAssign) and names_in(n.value) & derived_):
+                # (c) the count is kept in every mode: a settings switch (constructor parameter, changeable through
+                #     set_params in mid-stream) must not turn the bookkeeping off, or the spend of that phase is forgotten
+                init_params = set()
+                if u.cls is not None:
+                    ini = p.find_method(ci, "__init__")
+                    init_params = set(ini.all_param_names()) - {"self"} if ini is not None else set()
+                sw = None
+                for (s_, owner, field, idx) in tree.ancestors(n):
+                    if isinstance(owner, ast.If) and field in ("body", "orelse"):
+                        for a in ast.walk(owner.test):
+                            if isinstance(a, ast.Attribute) and isinstance(a.value, ast.Name) and a.value.id == "self" \
+                                    and a.attr in init_params:
+                                sw = (owner, a.attr)
+                report.add("R4.6", u.qual, f"increment `{norm_stmt(n, 60)}` is kept in every mode", f"{u.file}:{n.lineno}",
+                           sw is None, detail="not under a test of a constructor parameter" if sw is None else
+                           f"only executed when `{ast.unparse(sw[0].test)[:60]}` decides so: `{sw[1]}` is a setting that can "
+                           f"be changed with set_params while the stream runs; labels granted in the other mode are then "
+                           f"never charged and the strict phase starts from an empty account")
         # increments through the indicator `queried` (zeros(len(candidates)); queried[queried_indices] = 1)
         for n in ast.walk(u.node):
             if isinstance(n, ast.Assign) and len(n.targets) == 1 and isinstance(n.targets[0], ast.Name) \
@@ -478,6 +500,81 @@ def _implies_not_hasattr(test, attr):
     if isinstance(t, ast.BoolOp) and isinstance(t.op, ast.And):
         return any(_implies_not_hasattr(v, attr) for v in t.values)
     return False
+
+
+PRIVATE_MAKERS = {"deepcopy", "copy.deepcopy", "clone", "check_budget_manager"}
+
+
+def _private_value(p, f, v, params):
+    """Is the value of expression v a fresh object nobody else holds: a deep copy / clone, or an instance built
+    right here (call of a project class or of a `*_class` parameter)?"""
+    if not isinstance(v, ast.Call):
+        return False
+    cn = callname_(v) or ""
+    if cn in PRIVATE_MAKERS or cn.split(".")[-1] in ("deepcopy", "clone"):
+        return True
+    if isinstance(v.func, ast.Name) and v.func.id in params and v.func.id.endswith("_class"):
+        return True
+    r = p.resolve_expr(f.module, v.func) if isinstance(v.func, (ast.Name, ast.Attribute)) else None
+    return r is not None and r[0] == "class"
+
+
+def check_manager_private(p, report, rule="R4.9"):
+    """The accounting state lives in the manager object: two strategies (or the strategy and its caller) sharing one
+    object double-count every instance.  Obligation: check_budget_manager returns a private object on every path, and
+    every `self.budget_manager_ = ...` store of a stream strategy stores such a private object."""
+    g = None
+    for f in p.all_functions():
+        if f.name == "check_budget_manager" and f.file.endswith("utils/_validation.py"):
+            g = f
+    if g is None:
+        raise AnalysisError("check_budget_manager not found")
+    params = set(g.all_param_names())
+
+    class Fresh(MustAnalysis):
+        def __init__(self, fnode):
+            super().__init__(fnode)
+            self.bad = []
+            self.rets = 0
+
+        def transfer(self, node, tokens):
+            t = set(tokens)
+            if isinstance(node, ast.Assign):
+                ok = _private_value(p, g, node.value, params) or (isinstance(node.value, ast.Name) and node.value.id in t)
+                for tg in node.targets:
+                    if isinstance(tg, ast.Name):
+                        (t.add if ok else t.discard)(tg.id)
+            return frozenset(t)
+
+    fr = Fresh(g.node).run()
+    n_ret = 0
+    for (rn, states) in fr.returns:
+        if rn is None or rn.value is None:
+            continue
+        n_ret += 1
+        v = rn.value
+        for st in states:
+            ok = _private_value(p, g, v, params) or (isinstance(v, ast.Name) and v.id in st.tokens)
+            if not ok:
+                fr.bad.append((rn, describe(st.facts)))
+    if n_ret == 0:
+        raise AnalysisError("check_budget_manager has no value return")
+    report.add(rule, g.qual, "returns a private manager object on every path", f"{g.file}:{(fr.bad[0][0] if fr.bad else g.node).lineno}",
+               not fr.bad, detail=f"{n_ret} return(s): deep copy of the given manager or a new instance of the default class"
+               if not fr.bad else f"on the path where {fr.bad[0][1] or 'always'} the returned object is the caller's own manager "
+               f"(no deepcopy / clone / construction): every strategy given that object, and the caller, then spend from and age "
+               f"the same counters, so each of them is granted more than its budget")
+    for f in p.all_functions():
+        if "/tests/" in f.file or not f.file.startswith("skactiveml/stream/") or "/budgetmanager/" in f.file:
+            continue
+        for st in ast.walk(f.node):
+            if isinstance(st, ast.Assign) and any(isinstance(t, ast.Attribute) and isinstance(t.value, ast.Name)
+                                                  and t.value.id == "self" and t.attr == "budget_manager_" for t in st.targets):
+                ok = _private_value(p, f, st.value, set(f.all_param_names()))
+                report.add(rule, f.qual, f"`{norm_stmt(st, 70)}` stores a private manager", f"{f.file}:{st.lineno}", ok,
+                           detail="result of check_budget_manager / deepcopy / clone / a constructor call" if ok else
+                           "the stored object is not a private copy: the accounting state would be shared with whoever "
+                           "else holds it")
 
 
 def check_manager_construction(p, report):
@@ -705,8 +802,8 @@ def run(p, report, tier):
     report.rule("R4.6", "the commit advances the spent-estimate once per observed instance and by the number of granted "
                 "labels: an `update` called from inside a per-instance loop receives a one-instance slice; the "
                 "increments count candidate ROWS (never the elements of the 2-d candidates array) and count the "
-                "queried indices by their number (len / indicator sum), never by a reduction over the index values",
-                floor=8)
+                "queried indices by their number (len / indicator sum), never by a reduction over the index values; no increment sits under a test of a "
+                "constructor parameter (the account is kept in every mode)", floor=8)
     check_commit_counts(p, report, ents)
     report.rule("R4.7", "the budget manager that does the accounting is built once and with the configured budget: every "
                 "`self.budget_manager_ = check_budget_manager(...)` sits under a test that implies the attribute does "
@@ -716,6 +813,11 @@ def run(p, report, tier):
                 "with the same tests: the If tests on the per-candidate filter value in the candidate loop of update are "
                 "those of query (an instance granted a label by query must not be dropped by update)", floor=2)
     check_manager_construction(p, report)
+    report.rule("R4.9", "every strategy spends from a manager of its own: check_budget_manager returns, on every path, a "
+                "deep copy of the manager it was given or a newly built instance, and every `self.budget_manager_ = ...` "
+                "store of a stream strategy stores such an object (a shared manager is aged and charged by all its holders, "
+                "which lifts each holder's spend above its budget)", floor=8)
+    check_manager_private(p, report, "R4.9")
     report.assumptions += [
         "the numerical bounds of the property follow from R4.1-R4.4 by arithmetic that is not in the code; only the four structural premises are decided",
         "strict vs. non-strict comparison is not judged",
